@@ -73,6 +73,18 @@ fn run(req: &Sx) -> String {
                 Err(e) => format!("{{\"err\":{}}}", render_error(&e)),
             }
         }
+        "len" => hcore::entry_len(&build_error(&l[1])).to_string(),
+        "flatten" => render_error(&hcore::entry_flatten(build_error(&l[1]))),
+        "flatten_twice" => render_error(&hcore::entry_flatten_twice(build_error(&l[1]))),
+        "multiple_of" => render_error(&hcore::entry_multiple(l[1..].iter().map(build_error).collect())),
+        "at_loc" => render_error(&hcore::entry_at(build_error(&l[1]), l[2].text().to_string())),
+        "into_iter" => render_errs(&hcore::entry_into_iter(build_error(&l[1]))),
+        "display" => jstr(&hcore::entry_display(&build_error(&l[1]))),
+        "clone" => render_error(&hcore::entry_clone(&build_error(&l[1]))),
+        "to_syn" => {
+            let v = hcore::entry_to_syn(build_error(&l[1]));
+            format!("[{}]", v.iter().map(|(m, _)| jstr(m)).collect::<Vec<_>>().join(","))
+        }
         "script" => {
             let ops: Vec<u8> = l[1].list().iter().map(|x| x.num() as u8).collect();
             let errs: Vec<Error> = l[2].list().iter().map(build_error).collect();
